@@ -2,8 +2,8 @@
 # runs ./check <pid> --tier quick on /repo with each delivered mutant applied (one at a time), restores /repo afterwards
 mkdir -p /tmp/mutres
 cd /repo && git status --short | grep -v '^??' && { echo "/repo not clean"; exit 1; }
-for m in $(ls -d /tmp/wt_C*/mutants/m* | sort); do
-  pid=$(echo $m | sed 's#/tmp/wt_\(C[0-9]*\)/.*#\1#'); k=$(basename $m)
+for m in $(ls -d ${PREFIX:-/tmp/wt}_C*/mutants/*/ | sed "s:/$::" | sort); do
+  pid=$(echo $m | grep -o "C[0-9][0-9]" | head -1); k=$(basename $m)
   out=/tmp/mutres/${pid}_$k.log
   [ -s $out ] && continue
   cd /repo && git apply $m/patch.diff 2>/tmp/mutres/apply_err || { echo "APPLY-FAILED $(cat /tmp/mutres/apply_err)" > $out; git checkout -q -- .; continue; }
